@@ -168,6 +168,14 @@ func manageCanaryPodFailures(pods []*v1.Pod, params *Parameters, result *Result,
 	startCondition := conditions.GetExtendedDaemonSetReplicaSetStatusCondition(result.NewStatus, v1alpha1.ConditionTypeCanary)
 	restartCondition := conditions.GetExtendedDaemonSetReplicaSetStatusCondition(params.NewStatus, v1alpha1.ConditionTypePodRestarting)
 
+	// Unpausing is a manual action and takes precedence over a previous pause. The per-pod
+	// evaluation below applies it; do it here when there is no pod to evaluate (yet), otherwise
+	// a canary paused before its first pod exists could never be resumed.
+	if len(pods) == 0 && result.IsUnpaused && !result.IsFailed {
+		result.IsPaused = false
+		result.PausedReason = ""
+	}
+
 	// Note that we still need to evaluate restarts regardless of the enabled autoPause or autoFail
 	// since we maintain the restarting condition that can be checked by canary.noRestartsDuration
 	for _, pod := range pods {
